@@ -414,7 +414,48 @@ func genSpec(r *hx.Rand) *Spec {
 					req = union(req, g.randReq())
 				}
 			}
-			host.Fields = append(host.Fields, FieldSpec{Name: fmt.Sprintf("conn%d", c), Req: req, Deprecated: r.Chance(1, 5), Conn: &ConnSpec{Prefix: fmt.Sprintf("Cn%d", c), Node: node, Impl: impl}})
+			cs := &ConnSpec{Prefix: fmt.Sprintf("Cn%d", c), Node: node, Impl: impl}
+			// the node edge field may carry the requirement itself instead of the whole connection
+			if len(impl) == 0 && r.Chance(1, 3) {
+				cs.NodeReq = union(g.typeReq(node), g.randReq())
+				if !g.careless("conn") {
+					req = nil
+					if r.Chance(1, 2) {
+						req = g.randReq()
+					}
+				}
+			}
+			cs.NodeDeprecated = r.Chance(1, 6)
+			// further edge fields with their own required features, deprecation and arguments (the
+			// edge type carries the connection field's requirement)
+			edge := cs.Prefix + "Edge"
+			g.req[edge] = req
+			for e, n := 0, r.Range(0, 2); e < n; e++ {
+				ef := g.genField(edge, fmt.Sprintf("ef%d", e))
+				if r.Chance(1, 2) {
+					ef.Req = union(ef.Req, g.randReq())
+				}
+				ef.Deprecated = r.Chance(1, 4)
+				cs.EdgeFields = append(cs.EdgeFields, ef)
+			}
+			if r.Chance(1, 3) {
+				cs.Args = g.genArgs()
+				if !g.careless("conn") {
+					req = union(req, argReqs(g, cs.Args)) // extra arguments are arguments of the connection field
+					if len(cs.NodeReq) > 0 || len(cs.EdgeFields) > 0 {
+						// the edge type's requirement grew with it: harmless, requirements only got weaker to satisfy
+						g.req[edge] = req
+					}
+				}
+			}
+			if r.Chance(1, 3) {
+				cs.TimeBased = true
+				if g.spec.find("DateTime") == nil {
+					g.spec.Types = append(g.spec.Types, dateTimeSpec())
+				}
+			}
+			host = g.spec.find(host.Name) // the Types slice may have been reallocated
+			host.Fields = append(host.Fields, FieldSpec{Name: fmt.Sprintf("conn%d", c), Req: req, Deprecated: r.Chance(1, 5), Conn: cs})
 		}
 	}
 	return g.spec
@@ -664,6 +705,9 @@ func (g *docGen) literalNN(t *tref, depth int) string {
 	}
 	switch ts.Kind {
 	case "scalar":
+		if ts.Builtin == "DateTime" {
+			return hx.Pick(g.r, []string{`"2020-09-13T12:26:40Z"`, `"2020-09-13T14:00:00Z"`, `"2020-09-13T13:26:40Z"`, `"nonsense"`})
+		}
 		return `"sc"`
 	case "enum":
 		if len(ts.Values) == 0 || g.r.Chance(1, 25) {
@@ -718,6 +762,9 @@ func (g *docGen) jsonValue(t *tref, depth int) interface{} {
 	}
 	switch ts.Kind {
 	case "scalar":
+		if ts.Builtin == "DateTime" {
+			return hx.Pick(g.r, []string{"2020-09-13T12:26:40Z", "2020-09-13T14:00:00Z", "2020-09-13T13:26:40Z"})
+		}
 		return "sc"
 	case "enum":
 		if len(ts.Values) == 0 {
